@@ -311,7 +311,7 @@ class Rule(NamedBox):
         super().__post_init__()
         self.params = self.params or ()
         self.kwparams = self.kwparams or {}
-        self.decorators = self.decorators or []
+        self.decorators = list(self.decorators or [])
 
         # pyrefly: ignore [unnecessary-type-conversion]
         self.is_name = bool(self.is_name) or 'name' in self.decorators
